@@ -54,6 +54,7 @@ typedef struct vp_iface {
     uint32_t phy;
     uint32_t failmask;
     int name_conv;           /* 0: return bytes written, 1: return full length */
+    int txdown;              /* this interface's link is down: every transmit on it is refused */
 
     uint8_t *rxbuf;          /* malloc(mtu) receive buffer, reused for every frame */
     size_t rxcap;
